@@ -33,15 +33,17 @@ theorem source_no_literal_scratch :
     Gen.effects.all (fun e => e.shape != "literal" || e.arg == "':memory:'") = true := by
   decide
 
-/-- the score module never opens a file for in-place text writing: zone files are written by `_write_zone`, which
-    creates a temp file (`tempfile.mkstemp`) and publishes it with `os.replace`; the only other write is the pickle -/
+/-- no routine opens a file for in-place text writing except `exportpdb` (a requested output): zone files are written
+    by `_write_zone`, which creates a temp file (`tempfile.mkstemp`) and publishes it with `os.replace`; the only
+    other write is the pickle (`'wb'`, requested).  Database files are connected / removed only by `_create_sql` and
+    `_close` (C20) — no score routine does. -/
 theorem source_zone_published_by_replace :
-    (Gen.effects.filter (fun e => e.func.startsWith "StructureSimilarity:")).all
-        (fun e => e.callee != "open" || e.mode == "r" || e.mode == "wb") = true ∧
+    Gen.effects.all (fun e => e.callee != "open" || e.mode == "r" || e.mode == "wb" ||
+        e.func == "pdb2sql_base:pdb2sql_base.exportpdb") = true ∧
       (Gen.effects.any (fun e => e.func == "StructureSimilarity:StructureSimilarity._write_zone" && e.callee == "tempfile.mkstemp")) = true ∧
       (Gen.effects.any (fun e => e.func == "StructureSimilarity:StructureSimilarity._write_zone" && e.callee == "os.replace")) = true ∧
-      (Gen.effects.filter (fun e => e.func.startsWith "StructureSimilarity:")).all
-        (fun e => e.callee != "sqlite3.connect" && e.callee != "os.remove" && e.callee != "os.unlink") = true := by
+      Gen.effects.all (fun e => (e.callee != "sqlite3.connect" && e.callee != "os.remove" && e.callee != "os.unlink") ||
+        e.func == "pdb2sqlcore:pdb2sql._create_sql" || e.func == "pdb2sql_base:pdb2sql_base._close") = true := by
   decide
 
 /-! ### one computation -/
@@ -133,7 +135,7 @@ def exFS : FS Nat Nat := fun p =>
   else if p = 5 then some [55] else none
 
 def exRole : Nat → Role := fun p =>
-  if p ≤ 2 then .input else if p = 3 then .cache else if p = 10 ∨ p = 11 ∨ p = 12 then .temp
+  if p ≤ 2 then .input else if p = 3 then .cache else if 10 ≤ p ∧ p ≤ 13 then .temp
   else if 20 ≤ p then .output else .other
 
 def exA (decoy tmp : Nat) : Args Nat := { decoy := decoy, ref := 0, zone := some 3, tmp := tmp }
@@ -166,26 +168,76 @@ example : (prog exW .lrmsdSql { decoy := 1, ref := 0, tmp := 10, out1 := some 20
 def exCalls : List (Routine × Args Nat) :=
   [(.irmsdFast true, exA 1 10), (.irmsdFast false, exA 2 11),
    (.fnatFast, { decoy := 1, ref := 0, tmp := 12 }),
-   (.superpose, { decoy := 2, ref := 0, tmp := 12, out1 := some 20 })]
+   (.superpose, { decoy := 2, ref := 0, tmp := 13, out1 := some 20 })]
 
 /-- the hypotheses of `noninterference` are satisfiable: two i-RMSD runs sharing the zone file 3, an Fnat run and a
     superposition with export, in one directory -/
-example : SharedZoneRun exW exFS (· ≤ 2) 0 3 .izone exCalls where
+theorem exCalls_ok : SharedZoneRun exW exFS (· ≤ 2) 0 3 .izone exCalls where
   roundtrip := fun _ => rfl
   cache_not_input := by decide
   inputs := by decide
   zone := by decide
   tmp_fresh := by decide
-  tmp_distinct := by
-    intro i j ci cj hi hj hij
-    have hi' : i < 4 := by
-      rcases List.getElem?_eq_some_iff.mp hi with ⟨h, _⟩; simpa [exCalls] using h
-    have hj' : j < 4 := by
-      rcases List.getElem?_eq_some_iff.mp hj with ⟨h, _⟩; simpa [exCalls] using h
-    -- the two zone users have temp names 10 and 11; calls 2 and 3 never create their temp … but the scenario
-    -- asks for distinct names all the same; give the superposition its own
-    sorry
+  tmp_distinct := tmp_distinct_of_nodup exCalls (by decide)
   outs := by
     intro c hc o ho
-    simp [exCalls, Args.outs, exA] at hc ho
-    sorry
+    simp only [exCalls, List.mem_cons, List.not_mem_nil, or_false] at hc
+    rcases hc with rfl | rfl | rfl | rfl <;> simp [Args.outs, exA] at ho
+    subst ho
+    decide
+
+set_option maxRecDepth 4000 in
+/-- a schedule in which the second i-RMSD run (task 1) reads the zone file published by the first (task 0) while a
+    third and fourth computation run in between: each returns its solo value -/
+example :
+    let s := Sys.run ⟨exFS, exCalls.map (fun c => (prog exW c.1 c.2 : Prog Nat Nat (List Nat)))⟩
+      ([0, 0, 2, 0, 0, 3, 0, 0, 0, 0] ++ List.replicate 9 1 ++ List.replicate 20 0 ++ List.replicate 6 2 ++ List.replicate 9 3)
+    s.outcome 1 = some (((prog exW (.irmsdFast false) (exA 2 11) : Prog Nat Nat (List Nat)).exec exFS).2) ∧
+    s.outcome 1 = some (.ok [7, 8, 2, 7, 8, 9]) ∧
+    s.outcome 0 = some (((prog exW (.irmsdFast true) (exA 1 10) : Prog Nat Nat (List Nat)).exec exFS).2) ∧
+    (s.outcome 2).isSome ∧ (s.outcome 3).isSome ∧ s.fs 3 = some [7, 8] ∧ s.fs 10 = none ∧ s.fs 11 = none := by
+  decide
+
+/-! ### kept regressions: the pinned tree's writers violate the property -/
+
+/-- the fast i-RMSD routine with the OLD zone writer (`open(zone,'w')`, one `write` per line, in place) -/
+def oldTask (decoy : Nat) : Prog Nat Nat (List Nat) :=
+  withZoneInPlace exW .izone 0 3 (fun z => readPdb decoy fun d => .done (z ++ d))
+
+/-- the same with the current writer (temp file + atomic replace) -/
+def newTask (decoy tmp : Nat) : Prog Nat Nat (List Nat) :=
+  withZone exW .izone 0 3 tmp (fun z => readPdb decoy fun d => .done (z ++ d))
+
+/-- **inplace_write_counterexample** — with the old in-place writer there is a 2-task schedule (the reader runs between
+    the two `write`s of the writer) in which the second run scores with `[7]`, a strict prefix of the zone `[7, 8]`
+    it scores with alone; hence the old routine is not `Noninterfering`.  Under the very same schedule the current
+    writer gives the solo value. -/
+theorem inplace_write_counterexample :
+    ∃ sched : List Nat,
+      (Sys.run ⟨exFS, [oldTask 1, oldTask 2]⟩ sched).outcome 1 = some (.ok [7, 2]) ∧
+      ((oldTask 2).exec exFS).2 = .ok [7, 8, 2] ∧
+      (Sys.run ⟨exFS, [newTask 1 10, newTask 2 11]⟩ (sched ++ List.replicate 12 1)).outcome 1 = some (.ok [7, 8, 2]) :=
+  ⟨[0, 0, 0, 0, 0, 0, 0, 1, 1, 1, 1, 1, 1], by decide⟩
+
+theorem inplace_write_interferes : ¬ Noninterfering exFS [oldTask 1, oldTask 2] := by
+  intro h
+  obtain ⟨t, ht, ho⟩ := h [0, 0, 0, 0, 0, 0, 0, 1, 1, 1, 1, 1, 1] 1 (.ok [7, 2]) (by decide)
+  simp only [List.getElem?_cons_succ, List.getElem?_cons_zero, Option.some.injEq] at ht
+  subst ht
+  revert ho
+  decide
+
+/-- **fixed_scratch_counterexample** — the old SQL L-RMSD routine (scratch databases `decoy.db` = path 5 and `ref.db`
+    = path 6 in the working directory, removed through a shell): a user's file that happens to be called `decoy.db`
+    is gone after one solo run, and the routine is outside every footprint. -/
+theorem fixed_scratch_counterexample :
+    exFS 5 = some [55] ∧
+      ((lrmsdSqlFixedScratch exW { decoy := 1, ref := 0, tmp := 10 } 5 6 : Prog Nat Nat (List Nat)).exec exFS).1 5 = none ∧
+      ∀ role : Nat → Role, ¬ Within role (lrmsdSqlFixedScratch exW { decoy := 1, ref := 0, tmp := 10 } 5 6 : Prog Nat Nat (List Nat)) := by
+  refine ⟨by decide, by decide, ?_⟩
+  intro role h
+  simp only [lrmsdSqlFixedScratch, openDbOld, Within] at h
+  have := h.2 true
+  simp [Within] at this
+
+end Props.C16
